@@ -52,7 +52,7 @@ def gen(rng, tier, index):
         ops.append(["readonly_tick"])
     elif cfg["persistence"] and rng.random() < 0.2:
         # one scheduled save hits a transient I/O error; nothing changes afterwards
-        ops.append(["fault_tick", rng.choice(["open", "write", "flush", "fsync", "close", "rename", "rename2", "rename2", "remove"]), rng.choice(["EIO", "EACCES", "ENOSPC"])])
+        ops.append(["fault_tick", rng.choice(["open", "write", "flush", "fsync", "close", "rename", "rename2", "rename2", "remove"]), rng.choice(["EIO", "EACCES", "ENOSPC", "ETIMEDOUT"])])
     if cfg["flavour"] not in ("mqtt", "amqtt") and rng.random() < 0.15:
         # the last change is IN FLIGHT when a save tick fires: one or two forced switches inside the code that applies it
         # (allocator, presentation, value and attribute handlers, the dirty mark), everything else runs to its next
@@ -90,7 +90,7 @@ def gen(rng, tier, index):
         elif cfg["flavour"] in ("serial", "tcp", "mqtt") and rng.random() < 0.7:
             # ... and that scheduled save fails with a transient error while stop() is waiting for it
             ops.append(["stop_at_tick", {"fault": [rng.choice(["open", "write", "fsync", "close", "rename", "rename2", "remove"]),
-                                                   rng.choice(["EIO", "EACCES", "ENOSPC"])]}])
+                                                   rng.choice(["EIO", "EACCES", "ENOSPC", "ETIMEDOUT"])]}])
         else:
             ops.append(["stop_at_tick"])
     elif rng.random() < 0.25:
